@@ -308,6 +308,11 @@ func (c *Certificate) Verify(opts VerifyOptions) (current, expired, never []Cert
 		return
 	}
 
+	// VerifyOptions.CurrentTime: "if zero, the current time is used".
+	if opts.CurrentTime.IsZero() {
+		opts.CurrentTime = time.Now()
+	}
+
 	var candidateChains []CertificateChain
 	if opts.Roots.Contains(c) {
 		candidateChains = append(candidateChains, CertificateChain{c})
